@@ -695,3 +695,33 @@ const _: () = {
     routing_with_8_fangs!(R1, R2, R3, R4, R5, R6, R7, R8, R9, R10, R11);
     routing_with_8_fangs!(R1, R2, R3, R4, R5, R6, R7, R8, R9, R10, R11, R12);
 };
+
+#[cfg(ohkami_verif)]
+pub mod verif_hooks {
+    //! Run-time assembled routing (verification hook; see `crate::__verif__`).
+    use super::{RoutingItem, HandlerSet, ByAnother, Dir, Router};
+    use crate::Ohkami;
+
+    pub enum DynItem {
+        Handlers(HandlerSet),
+        By(ByAnother),
+        Dir(Dir),
+        Ohkami(Ohkami),
+    }
+
+    /// A list of routing items applied in order, as a tuple of them would be.
+    pub struct DynRouting(pub Vec<DynItem>);
+
+    impl RoutingItem for DynRouting {
+        fn apply(self, router: &mut Router) {
+            for item in self.0 {
+                match item {
+                    DynItem::Handlers(h) => <HandlerSet as RoutingItem>::apply(h, router),
+                    DynItem::By(b)       => <ByAnother as RoutingItem>::apply(b, router),
+                    DynItem::Dir(d)      => <Dir as RoutingItem>::apply(d, router),
+                    DynItem::Ohkami(o)   => <Ohkami as RoutingItem>::apply(o, router),
+                }
+            }
+        }
+    }
+}
